@@ -92,7 +92,7 @@ def datetime_unit(ctx, kind, unit, which, ylo, yhi, shape=None, ws=0, we=6):
     if Ts:
         # the unit boundary wall time B may itself be skipped or repeated in the zone
         bw1, boff1, nvalid = resolve_wall(B, Ts, offs, True)
-        touches = (nvalid != 1) if unit not in ("second", "minute", "hour") else False
+        touches = nvalid != 1
         known = ctx.known_region("C12-boundary-in-transition", lambda: touches)
         # recorded behaviour inside the region: the boundary is resolved by the construction rules with x's fold
         bw, boff, _ = resolve_wall(B, Ts, offs, x.fold == 1)
@@ -161,7 +161,12 @@ def cases(tier):
             weeks = WEEKS if (unit == "week" and tier != "quick") else ([(0, 6), (6, 5)] if unit == "week" else [(0, 6)])
             for ws, we in weeks:
                 wk = f" week {ws}-{we}" if unit == "week" else ""
-                for kind in (("zone", "utc") if tier == "quick" else ("zone", "utc", "fixed", "naive")):
+                kinds = ("zone", "utc", "fixed", "naive")
+                if tier == "quick":
+                    # week = previous()/next() day steps + start_of/end_of("day"): with a zone every step multiplies the
+                    # zone branches; the quick tier decides weeks on utc/fixed and the zone behaviour on the day unit
+                    kinds = ("utc", "fixed") if unit == "week" else ("zone", "utc")
+                for kind in kinds:
                     for shape in (("gap", "overlap") if kind == "zone" else (None,)):
                         w = (2000, 2000) if kind == "zone" else win
                         out.append(dict(name=f"{which}_of {unit}{wk} {kind} {shape or ''}", fn=datetime_unit,
